@@ -483,22 +483,21 @@ pub fn ev_cmpstr(sh: &mut Shards, ta: &[u8], tb: &[u8]) {
         _ => return,
     };
     let r = match catch_unwind(|| ssdeep::compare(sa, sb)) {
-        Ok(Ok(v)) => format!("{{\"ok\":\"ok\",\"score\":{},\"side\":\"\",\"origin\":\"\"}}", v),
+        Ok(Ok(v)) => format!("{{\"ok\":\"ok\",\"score\":{},\"side\":\"\",\"origin\":\"\",\"kind\":\"\",\"off\":0,\"msg\":\"\"}}", v),
         Ok(Err(e)) => format!(
-            "{{\"ok\":\"err\",\"score\":-1,\"side\":\"{}\",\"origin\":\"{}\"}}",
+            "{{\"ok\":\"err\",\"score\":-1,\"side\":\"{}\",\"origin\":\"{:?}\",\"kind\":\"{:?}\",\"off\":{},\"msg\":\"{}\"}}",
             match e.side() {
                 ParseErrorSide::Left => "Left",
                 ParseErrorSide::Right => "Right",
             },
-            match e.origin() {
-                ssdeep::ParseErrorOrigin::BlockSize => "BlockSize",
-                ssdeep::ParseErrorOrigin::BlockHash1 => "BlockHash1",
-                ssdeep::ParseErrorOrigin::BlockHash2 => "BlockHash2",
-            }
+            e.origin(),
+            e.kind(),
+            e.offset().min(1 << 30),
+            e.to_string().replace('\\', "\\\\").replace('"', "\\\"")
         ),
         Err(_) => {
             note_panic();
-            "{\"ok\":\"panic\",\"score\":-2,\"side\":\"\",\"origin\":\"\"}".to_string()
+            "{\"ok\":\"panic\",\"score\":-2,\"side\":\"\",\"origin\":\"\",\"kind\":\"\",\"off\":0,\"msg\":\"\"}".to_string()
         }
     };
     sh.emit(&format!("{{\"ev\":\"cmpstr\",\"ta\":{},\"tb\":{},\"r\":{},\"panics\":{}}}", jarr_u8(ta), jarr_u8(tb), r, take_panics()));
